@@ -236,46 +236,6 @@ pub proof fn lemma_same_res_disjoint(a: A5Cell, b: A5Cell)
     }
 }
 
-/// a strictly ID-sorted list of pairwise non-overlapping cells of resolution >= 1 is ordered by leaf intervals
-pub proof fn lemma_initial_ordered(l: Seq<u64>)
-    requires all_canonical(l), sorted_strict(l), antichain(l), forall|k: int| 0 <= k < l.len() ==> res_of(#[trigger] l[k]) >= 1,
-    ensures ordered(l),
-{
-    assert forall|k: int, j: int| 0 <= k < j < l.len() implies leaf_hi(dec(#[trigger] l[k])) <= leaf_lo(dec(#[trigger] l[j])) by {
-        lemma_canonical_decodable(l[k]);
-        lemma_canonical_decodable(l[j]);
-        lemma_dec_res(l[k]);
-        lemma_dec_res(l[j]);
-        let a = dec(l[k]);
-        let b = dec(l[j]);
-        assert(enc(a) < enc(b));
-        assert(!overlap(a, b));
-        if a.resolution <= b.resolution {
-            let b1 = anc(b, a.resolution as int);
-            lemma_anc_valid(b, a.resolution as int);
-            assert(is_desc(b, b1));
-            if enc(b1) < enc(a) {
-                thm_desc_order(b1, a, b, a);
-            } else if enc(b1) == enc(a) {
-                lemma_enc_injective(b1, a);
-            }
-            lemma_same_res_disjoint(a, b1);
-            lemma_desc_nested(b, b1);
-        } else {
-            let a1 = anc(a, b.resolution as int);
-            lemma_anc_valid(a, b.resolution as int);
-            assert(is_desc(a, a1));
-            if enc(b) < enc(a1) {
-                thm_desc_order(b, a1, b, a);
-            } else if enc(a1) == enc(b) {
-                lemma_enc_injective(a1, b);
-            }
-            lemma_same_res_disjoint(a1, b);
-            lemma_desc_nested(a, a1);
-        }
-    }
-}
-
 /// two entries whose intervals touch are neighbours in an ordered list
 pub proof fn lemma_touching_adjacent(l: Seq<u64>, a: int, b: int)
     requires
@@ -374,23 +334,6 @@ pub proof fn lemma_maximal(l: Seq<u64>)
 }
 
 
-/// the class of inputs on which C10 is proved: no base cell and no world cell among the inputs
-/// (inputs mixing base cells with other faces' quintants: known finding F1)
-pub open spec fn max_class(cells: Seq<u64>) -> bool { forall|k: int| 0 <= k < cells.len() ==> res_of(#[trigger] cells[k]) >= 1 }
-
-pub proof fn lemma_max_class_list(cells: Seq<u64>, cur: Seq<u64>)
-    requires cur.to_set() == cells.to_set(), max_class(cells),
-    ensures forall|k: int| 0 <= k < cur.len() ==> res_of(#[trigger] cur[k]) >= 1,
-{
-    assert forall|k: int| 0 <= k < cur.len() implies res_of(#[trigger] cur[k]) >= 1 by {
-        assert(cur.to_set().contains(cur[k]));
-        assert(cells.contains(cur[k]));
-        let j = choose|j: int| 0 <= j < cells.len() && cells[j] == cur[k];
-        assert(res_of(cells[j]) >= 1);
-    }
-}
-
-
 pub proof fn lemma_empty_maximal()
     ensures maximal(Seq::<u64>::empty()), no_merge_possible(Seq::<u64>::empty()),
 {
@@ -441,7 +384,7 @@ pub proof fn lemma_maximal_no_merge(l: Seq<u64>)
 /// sorted duplicate-free enumeration - the same set.  (compact()'s contract: a list on whose sorted enumeration the
 /// sibling test fails everywhere is returned as that enumeration.)
 pub proof fn thm_idempotent(out: Seq<u64>, s: Seq<u64>)
-    requires all_canonical(out), maximal(out), sorted_strict(s), s.to_set() == out.to_set(),
+    requires all_canonical(out), maximal(out), sorted_scan(s), s.to_set() == out.to_set(),
     ensures no_merge_possible(s), all_canonical(s), maximal(s),                                   // [C10:idempotent]
 {
     assert forall|k: int| 0 <= k < s.len() implies canonical(#[trigger] s[k]) by {
